@@ -3,6 +3,7 @@ package sim
 import (
 	"bytes"
 	"fmt"
+	"strings"
 
 	"github.com/RoaringBitmap/roaring"
 	segment "github.com/blugelabs/bluge_segment_api"
@@ -66,6 +67,7 @@ func runMergeFaultCase(c *Case, env *Env) *Result {
 	}
 	desc := fmt.Sprintf("merge of %d file-backed inputs (public=%v, chunk mode %d)", len(inputs), mc.Merge.Public, mc.Mode)
 
+	budget := 0 // set once the fault-free run has counted the reads
 	// one execution: fresh loads, a global read counter over all inputs
 	exec := func(fault *ReadFault) (buf []byte, err error, pi *PanicInfo, reads, fired int) {
 		Heartbeat()
@@ -82,6 +84,10 @@ func runMergeFaultCase(c *Case, env *Env) *Result {
 		}
 		for _, ra := range ras {
 			ra := ra
+			if fault != nil && budget > 0 {
+				ra.Budget = budget // a merge that keeps re-reading a failing input is cut off
+				ra.Mark()
+			}
 			ra.FaultFn = func(int) (bool, int) {
 				// the plan is expressed in terms of the global read index over all inputs
 				idx := counter
@@ -133,6 +139,7 @@ func runMergeFaultCase(c *Case, env *Env) *Result {
 		res.Fail = mismatch("C02", "model", sectionOf(d), "fault-free merge output: "+d)
 		return res
 	}
+	budget = 20*R + 2000
 	res.NonTrivial = R >= 20 && big
 	res.probeN("fault-free-input-reads", R)
 
@@ -157,7 +164,11 @@ func runMergeFaultCase(c *Case, env *Env) *Result {
 			res.fault("merge-input-"+name, 1, fired)
 			label := fmt.Sprintf("%s: input storage fails (%s) at read %d of %d", desc, name, j, R)
 			if pi != nil {
-				res.Fail = &Fail{Prop: "C19", Oracle: "merge-read-fault", Kind: "panic", Site: pi.Site, Detail: label + ": panic: " + pi.Msg}
+				k := "panic"
+				if strings.Contains(pi.Msg, "livelock:") {
+					k = "hang"
+				}
+				res.Fail = &Fail{Prop: "C19", Oracle: "merge-read-fault", Kind: k, Site: pi.Site, Detail: label + ": panic: " + pi.Msg}
 				return res
 			}
 			if err == nil && !bytes.Equal(buf, B) {
